@@ -371,3 +371,18 @@ func MakeInterest(label string, size int, seed byte) ([]byte, bool) {
 	}
 	return nil, false
 }
+
+// ParseFrame decodes a link-layer frame: a well-formed LpPacket, or -- equivalently under
+// NDNLPv2 -- a bare network packet (one well-formed Interest or Data TLV spanning the whole
+// frame), which is returned as an LpPacket without header fields carrying that packet.
+func ParseFrame(frame []byte) (LP, error) {
+	p, err := Parse(frame)
+	if !errors.Is(err, ErrNotLp) {
+		return p, err
+	}
+	t, perr := tlvwalk.ParseOne(frame)
+	if perr != nil || (t.Type != TInterest && t.Type != TData) || !t.Shortest() {
+		return p, err
+	}
+	return LP{Fragment: frame, HasFragment: true}, nil
+}
